@@ -1316,10 +1316,98 @@ def replay_elementwise(a):
     return a.replay_cases(exe, data, cases, prefix=rules)
 
 
+def list_map_equality(a):
+    """compare_eq on two lists / two maps (<= 2 entries), the comparison of the members being an arbitrary Result<bool>"""
+    PV = enum_variants(a.src, "rules/path_value.rs", "PathAwareValue")
+    MV = struct_fields(a.src, "rules/path_value.rs", "MapValue")
+    cmp_model = lambda ex, av: ex.fresh_result(("bool", ex.fresh("Bool", "eq")), "cmp")
+    for kind in ("List", "Map"):
+        holder = {}
+
+        def prep(ex, kind=kind):
+            x, y = ex.opq(), ex.opq()
+            ex.proj[("disc", x[1])] = str(PV.index(kind))
+            ex.proj[("disc", y[1])] = str(PV.index(kind))
+            holder.update(x=x, y=y)
+            return {"_1": x, "_2": y}
+        ex = a.exec(r"(?:rules::)?path_value::compare_eq", {"compare_eq": cmp_model, "next": mirexec.m_iter_next, "into_iter": mirexec.m_new_iter,
+                                                            "iter": mirexec.m_new_iter, "zip": mirexec.m_zip, "get": mirexec.m_option,
+                                                            "len": lambda ex, av: ("int", ex.len_of(av[0]))},
+                    log=("len",), unroll=2, max_paths=20000, prep=prep)
+        a.fns.append(f"rules::path_value::compare_eq ({kind} x {kind})")
+        bad, ncmp = [], 0
+        for p in ex.paths:
+            r = p.ret
+            if p.outcome != "return" or not r or r[0] != "enum" or r[1] != "Result":
+                bad.append(pc_term(p.pc))
+                continue
+            cs = calls(p, "compare_eq")
+            lens = calls(p, "len")
+            gets = calls(p, "get")
+            ncmp += len(cs)
+            probs = []
+            if len(lens) != 2 or lens[0][2][0] == lens[1][2][0]:
+                probs.append("the two sizes compared are not the sizes of the two operands")
+            same_len = f"(= {lens[0][3][1]} {lens[1][3][1]})" if len(lens) == 2 else "false"
+            its = iterations(ex, p)
+            if kind == "List":
+                for k, c in enumerate(cs):
+                    el = its[k][1] if k < len(its) else None
+                    if not (el is not None and el[0] == "tuple" and str(c[2][0]) == str(el[1][0]) and str(c[2][1]) == str(el[1][1])):
+                        probs.append("a member comparison is not (left[k], right[k])")
+            else:
+                for k, c in enumerate(cs):
+                    el = its[k][1] if k < len(its) else None
+                    g = gets[k] if k < len(gets) else None
+                    ok = (el is not None and g is not None and g[3][0] == "enum" and str(c[2][1]) == str(g[3][3]["Some"]))
+                    if not ok:
+                        probs.append("a value comparison is not (left[key], right[key])")
+                if len(gets) < len(cs):
+                    probs.append("value compared without a lookup")
+            okv = r[3].get("Ok")
+            res = okv[1] if okv is not None and okv[0] == "bool" else None
+            alltrue = "(and true " + " ".join(f"(and (= {c[3][2]} 0) {c[3][3]['Ok'][1]})" for c in cs) + ")"
+            anyerr = "(or false " + " ".join(f"(= {c[3][2]} 1)" for c in cs) + ")"
+            missing = "(or false " + " ".join(f"(= {g[3][2]} 0)" for g in gets if g[3][0] == "enum") + ")"
+            # number of members visited when the answer is `true`: all of them (the executor cuts longer collections)
+            n_it = "(+ 0 0 " + " ".join(f"(ite (= {t} 1) 1 0)" for _k, _e, t, _i in its) + ")"
+            full = f"(= {n_it} {len(cs)})"
+            if res is None:
+                good = f"(and (= {r[2]} 1) {anyerr})"
+            else:
+                good = (f"(ite (= {r[2]} 1) {anyerr} (and (not {anyerr}) (= {res} (and {same_len} {alltrue} (not {missing}) {full}))))")
+            bad.append(f"(and {pc_term(p.pc)} (not {'false' if probs else good}))")
+        c = a.discharge(f"compare_eq/{kind.lower()}-equality", ex, bad,
+                        f"compare_eq on two {kind.lower()}s of <= 2 entries ({ncmp} member comparisons over all paths), member comparison arbitrary: "
+                        + ("true iff the lengths are equal and every (left[k], right[k]) pair compares equal, in order"
+                           if kind == "List" else
+                           "true iff the sizes are equal, every key of the left map is present in the right map and the two values under it compare equal")
+                        + "; an error of a member comparison is passed on; the first unequal member decides")
+        if c:
+            c["replay"] = replay_list_map_eq(a)
+            c["reproduced"] = c["replay"].get("reproduced", False)
+            a.candidates.append(c)
+
+
+def replay_list_map_eq(a):
+    exe = a.cli()
+    if not exe:
+        return {"reproduced": False, "note": "native build failed"}
+    data = ('{"l0": [], "l1": [1], "l2": [1, 2], "l2r": [2, 1], "l3": [1, 2, 3], "ln": [[1], [2]],\n'
+            ' "m1": {"a": 1}, "m2": {"a": 1, "b": 2}, "m2r": {"b": 2, "a": 1}, "m2x": {"a": 1, "b": 3}, "m2k": {"a": 1, "c": 2}, "m0": {}}\n')
+    cases = [("l2 == [1, 2]", "PASS"), ("l2 == [2, 1]", "FAIL"), ("l2 == [1]", "FAIL"), ("l1 == [1, 2]", "FAIL"), ("l2 == [1, 2, 3]", "FAIL"),
+             ("l3 == [1, 2, 3]", "PASS"), ("l3 == [1, 2, 4]", "FAIL"), ("l3 == [0, 2, 3]", "FAIL"), ("l0 == []", "PASS"), ("l1 == []", "FAIL"),
+             ("ln == [[1], [2]]", "PASS"), ("ln == [[1], [3]]", "FAIL"), ("l2 != [1, 2]", "FAIL"), ("l2 != [2, 1]", "PASS"),
+             ("m2 == {\"a\": 1, \"b\": 2}", "PASS"), ("m2 == {\"b\": 2, \"a\": 1}", "PASS"), ("m2 == {\"a\": 1}", "FAIL"),
+             ("m1 == {\"a\": 1, \"b\": 2}", "FAIL"), ("m2 == {\"a\": 1, \"b\": 3}", "FAIL"), ("m2 == {\"a\": 1, \"c\": 2}", "FAIL"),
+             ("m2 == {\"a\": 2, \"b\": 2}", "FAIL"), ("m0 == {}", "PASS"), ("m2 != {\"a\": 1, \"b\": 2}", "FAIL"), ("m2 != {\"a\": 1, \"b\": 3}", "PASS")]
+    return a.replay_cases(exe, data, cases)
+
+
 SITES = {
-    "C01": [guard_block, type_block, binary_operation, operator_dispatch, match_value, common_operator, contained_in, eq_operation, in_operation],
+    "C01": [guard_block, type_block, binary_operation, operator_dispatch, match_value, common_operator, contained_in, eq_operation, in_operation, list_map_equality],
     "C02": [guard_block, type_block, record_tracker],
     "C03": [flip_closure, negated_compare_wrapper],
-    "C13": [flip_closure, operator_dispatch, binary_operation, match_value, common_operator, contained_in, eq_operation, in_operation],
+    "C13": [flip_closure, operator_dispatch, binary_operation, match_value, common_operator, contained_in, eq_operation, in_operation, list_map_equality],
     "C18": [function_dispatch, elementwise],
 }
